@@ -231,3 +231,52 @@ def RST(inp):
     cl['term_not_forgotten'] = get(o2, 'raftCurrentTerm') >= t
     cl['log_survives_restart'] = len(so.log_of(o2)) == len(so.log_of(o))
     return Res(cl, nontrivial=True, obs=lambda: dict(t=show(t), second=len(second), term_after=show(get(o2, 'raftCurrentTerm'))), vars=dict(t=t))
+
+
+@obligation('JR5', props=('C10', 'C06'), quick=[dict(n=3), dict(n=4)], thorough=[dict(n=3), dict(n=4), dict(n=5)], stubs=_STUBS + ('membership commands are real pickled bytes',),
+            bounds='journal of n<=5 entries holding one or two membership entries (add d / rem c / add d then rem d) at any positions, stored commit index anywhere (below, at or above them); no dump file; constructor list [b, c]; two ticks after the restart')
+def JR5(inp, n):
+    """restart with dynamic membership: membership entries take effect when they are appended, so a restarted node's member set is
+    the constructor list changed by every membership entry of its own journal - also those above the stored commit index, which it
+    had stored and acknowledged but not seen committed - and stays that as the committed ones are applied again."""
+    from pvf.obligations.membership import mcmd, fold
+    fs = _fresh_disk(inp)
+    now = inp.real('now', 0)
+    j = J.FileJournal('jf')
+    kinds = (('add', 'd'), ('rem', 'c'))
+    first = kinds[inp.choice('change', 2)]
+    pos1 = inp.choice('pos1', n - 1) + 1
+    second = inp.flag('undone_later')          # a second entry that undoes the first (the known double-execution finding lives there)
+    pos2 = (inp.choice('pos2', n - 1) + 1) if second else None
+    inp.assume(True if pos2 is None else pos2 > pos1)
+    ents = []
+    for i in range(n):
+        if i == pos1:
+            c = mcmd(*first)
+        elif pos2 is not None and i == pos2:
+            c = mcmd('rem' if first[0] == 'add' else 'add', first[1])
+        else:
+            c = so.NOOP
+        e = (c, 1 + i, 0)
+        j.add(*e)
+        ents.append(e)
+    cm = inp.int('meta_commit', 1, n)
+    j.setRaftCommitIndex(cm)
+    j.onOneSecondTimer()
+    so_mod.pickle = _JPickle          # commands come back from the journal image as blobs (literal bytes): decoded from their bytes
+    from pvf.blob import symord, symlen
+    so_mod.ord, so_mod.len = symord, symlen
+    o, tr = _node(inp, so.Clock(now), dynamicMembershipChange=True)
+    put(o, 'needLoadDumpFile', True)           # as after the real constructor: the first tick does the start-up load
+    put(o, 'raftElectionDeadline', now + 100)
+    _, exc = guard(o._onTick, 0.0)
+    members1 = set(x.id for x in o.otherNodes)
+    _, exc2 = guard(o._onTick, 0.0)
+    members2 = set(x.id for x in o.otherNodes)
+    want = fold({'b', 'c'}, ents)
+    cl = {'no_exception': exc is None and exc2 is None}
+    cl['journal_loaded'] = len(so.log_of(o)) == n
+    cl['member_set_is_fold_of_own_journal'] = members1 == want
+    cl['member_set_stable_while_applying'] = members2 == want
+    return Res(cl, nontrivial=True, obs=lambda: dict(n=n, first=first, pos1=pos1, pos2=pos2, commit=show(cm), members=[sorted(members1), sorted(members2)], want=sorted(want), exc=show(exc)),
+               vars=dict(two=1 if second else 0))
